@@ -1077,7 +1077,7 @@ STEREO_TARGETS = [
     'C[C@H](N)C(=O)O', 'C[C@@H](O)[C@H](N)C(=O)O', 'O[C@H]1CCCC[C@@H]1N', 'C[C@](F)(Cl)CC[C@@](F)(Cl)C', 'F[C@H](Cl)C[C@H](F)Cl',
     'F[C@](Cl)(Br)I.F[C@@](Cl)(Br)I', 'F[C@](Cl)(Br)C[C@@](F)(Cl)Br',
     'F/C=C/F', 'F/C=C\\F', 'FC=CF', 'F/C(Cl)=C/Br', 'F/C(Cl)=C\\Br', 'C/C=C/C=C\\C', 'F/C=C=C=C/F', 'F/C=C=C=C\\F', 'C1CCC/C=C/CC1',
-    'C/C=C/[C@H](F)Cl', 'F/C=C/C=C/F', 'F/C=C/Cl.F/C=C\\Cl', '[H]/C(F)=C/F',
+    'C/C=C/[C@H](F)Cl', 'F/C=C/C=C/F', 'F/C(Cl)=C(/Br)I', 'F/C(Cl)=C(\\Br)I', 'C/C(N)=C(/O)F', 'FC(Cl)=C(Br)I', 'F/C=C/Cl.F/C=C\\Cl', '[H]/C(F)=C/F',
     'FC=[C@]=CCl', 'FC=[C@@]=CCl', 'FC=C=CCl', 'FC(Br)=[C@]=C(Cl)I', 'FC(Br)=[C@@]=C(Cl)I', 'CC=[C@]=CC', 'CC=[C@]=C(C)N',
 ]
 
@@ -1093,7 +1093,8 @@ STEREO_SMARTS = [
     '[C@]([F])[Cl]', '[F][C@]', '[C@]',
     # double bonds
     '[F]/[C]=[C]/[F]', '[F]/[C]=[C]\\[F]', '[F]\\[C]=[C]/[F]', '[F]\\[C]=[C]\\[F]', '[A]/[C]=[C]/[A]', '[A]/[C]=[C]\\[A]',
-    '[F]/[C]([Cl])=[C]/[Br]', '[Cl][C](/[F])=[C]/[Br]', '[Cl]/[C]([F])=[C]/[Br]', '[F]/[C]=[C]/[A]', '[C]/[C]=[C]/[C]=[C]\\[C]',
+    '[F]/[C]([Cl])=[C]/[Br]', '[Cl][C](/[F])=[C]/[Br]', '[F]/[C]([Cl])=[C](/[Br])[I]', '[Cl][C](/[F])=[C]([I])/[Br]',
+    '[A]/[C]([A])=[C](/[A])[A]', '[I][C](\\[Br])=[C](/[F])[Cl]', '[Cl]/[C]([F])=[C]/[Br]', '[F]/[C]=[C]/[A]', '[C]/[C]=[C]/[C]=[C]\\[C]',
     '[C]/[C]=[C]/[C]=[C]/[C]', '[C]/[C]=[C]/[C]', '[C]/[C]=[C]/[C@]([F])[Cl]', '[F]/[C]=[C]/[Cl].[F]/[C]=[C]\\[Cl]', '[C]1[C][C][C]/[C]=[C]/[C][C]1',
     # allenes
     '[F][C]=[C@]=[C][Cl]', '[F][C]=[C@@]=[C][Cl]', '[Cl][C]=[C@]=[C][F]', '[A][C]=[C@]=[C][A]', '[C]=[C@]=[C]', '[F][C]([Br])=[C@]=[C]([Cl])[I]',
@@ -2027,11 +2028,28 @@ def ends_pair_verdict(f, ep, et, lp, lt):
     return (lt != flip) == lp
 
 
+def ring_double_bond(m):
+    """a double bond inside a ring: the two Kekule drawings of a symmetric ring are different canonical strings, so whole-molecule
+    equality (and with it get_fast_mapping) can miss an isomorphism — canonical SMILES is property C02's subject, such molecules
+    are outside this oracle"""
+    return any(int(b) == 2 and b.in_ring for _, _, b in m.bonds())
+
+
 def match_stereo_check(p, t):
     """whole-molecule pairs: `get_mapping(match_stereo=True)` = the isomorphisms that respect the labels (all of them without the
     filter, exactly one with it)"""
     if len(p) != len(t) or is_query(p):
         return False, None, 'not a whole-molecule pair'
+    if any(a.implicit_hydrogens is None for m in (p, t) for a in m._atoms.values()):
+        return False, None, 'unknown hydrogen counts: the extracted substructure is not comparable (outside the oracle)'
+    if ring_double_bond(p) or ring_double_bond(t):
+        return False, None, 'Kekule ring drawing: canonical-string equality is not this property (outside the oracle)'
+    try:
+        whole = t.substructure(list(t._atoms))
+    except Exception:
+        return False, None, 'substructure() raised (outside the oracle)'
+    if any(whole._atoms[n].implicit_hydrogens != a.implicit_hydrogens for n, a in t._atoms.items()):
+        return False, None, 'substructure() recomputes other hydrogen counts than the target carries (outside the oracle)'
     try:
         emb = reference_embeddings(p, t, None, budget=500_000)
     except OverflowError:
@@ -2043,16 +2061,20 @@ def match_stereo_check(p, t):
     st, got = outcome(lambda: canon([dict(m) for m in p.get_mapping(t, match_stereo=True, automorphism_filter=False)]))
     if st != 'ok':
         return True, f'C07/match_stereo/raises/{st}', f'get_mapping(match_stereo=True) raised {st}'
-    if got != want:
+    all_emb = canon(emb)
+    # exact comparison where the skeleton has no symmetry; with symmetry, which automorphisms count as label-respecting at
+    # pseudo-asymmetric centres is property C12's question: here emptiness, membership among the embeddings and no duplicates
+    if (got != want) if len(emb) <= 1 else ((bool(got) != bool(want) and not (labelled(p) or labelled(t))) or any(m not in all_emb for m in got) or len(set(got)) != len(got)):
         kind = 'spurious' if any(m not in want for m in got) else 'missing' if len(set(got)) == len(got) else 'duplicate'
         return True, f'C07/match_stereo/{kind}-mapping', f'real={len(got)} reference={len(want)} (label-respecting isomorphisms)'
     st, gotf = outcome(lambda: canon([dict(m) for m in p.get_mapping(t, match_stereo=True)]))
     if st != 'ok':
         return True, f'C07/match_stereo/raises/{st}', f'get_mapping(match_stereo=True, automorphism_filter=True) raised {st}'
-    if len(gotf) != (1 if want else 0) or any(m not in want for m in gotf):
+    sym_lab = len(emb) > 1 and (labelled(p) or labelled(t))   # pseudo-asymmetric centres: emptiness is C12's question
+    if (len(gotf) != (1 if want else 0) and not sym_lab) or len(gotf) > 1 or any(m not in (want if len(emb) <= 1 else all_emb) for m in gotf):
         return True, 'C07/match_stereo/filter-not-one', f'filtered: {len(gotf)} mappings, reference has {len(want)}'
     fm = p.get_fast_mapping(t)
-    if (fm is None) != (not want) or (fm is not None and tuple(sorted(fm.items())) not in want):
+    if ((fm is None) != (not want) and not sym_lab) or (fm is not None and tuple(sorted(fm.items())) not in (want if len(emb) <= 1 else all_emb)):
         return True, 'C07/get_fast_mapping/disagrees', f'get_fast_mapping={fm} reference has {len(want)} label-respecting isomorphisms'
     return False, None, f'{len(want)} label-respecting isomorphisms, real code agrees'
 
@@ -2123,7 +2145,8 @@ def stream_match_stereo(ctx):
                 ga = ga_line(p, sub, 0, None)
                 lines.append('IC ' + ga[3:] + ' ' + ' '.join(map(str, enc_dict(fm))))
                 meta.append(('IC', tag, inp, fm))
-            if not labelled(p) and not labelled(sub) and len(p) <= 16:
+            if not labelled(p) and not labelled(sub) and len(p) <= 16 and not ring_double_bond(p) and not ring_double_bond(sub) \
+                    and all(a.implicit_hydrogens is not None for mm in (p, sub) for a in mm._atoms.values()):
                 try:
                     ref = reference_embeddings(p, sub, None, budget=200_000)
                 except OverflowError:
@@ -2437,6 +2460,27 @@ def search(ctx):
         if time.time() - t0 > budget:
             break
         run(inp)
+    # stereo: marked queries on labelled targets / mirror images / E-Z partners; label-respecting whole-molecule matching
+    sms = [x for sm_ in STEREO_SMARTS for x in both_marks(sm_)]
+    stg = [m for m in (molgen.parse(x) for x in STEREO_TARGETS) if m is not None]
+    for _ in range(150 if ctx.quick else 2500):
+        if time.time() - t0 > budget:
+            break
+        base = wire.mol_to_ints(shuffle_dicts(ctx.rng, ctx.rng.choice(stg)))
+        v = relabel(base, atoms=ctx.rng.choice(['keep', 'keep', 'flip', 'drop']), bonds=ctx.rng.choice(['keep', 'keep', 'flip', 'drop']))
+        if ctx.rng.random() < 0.7:
+            run({'pattern': {'smarts': ctx.rng.choice(sms)}, 'target': v, 'scope': None})
+        else:
+            spec = stereo_cut(ctx.rng, make_target(base))
+            if spec is not None:
+                run({'pattern': spec, 'target': v, 'scope': None})
+    n_ms = 0
+    for tag, pi, ti in gen_ms_cases(ctx):
+        if time.time() - t0 > budget or n_ms > (120 if ctx.quick else 1500):
+            break
+        if pi[0] <= 12 and pi[0] == ti[0]:
+            n_ms += 1
+            run({'pattern': {'mol': pi}, 'target': ti, 'match_stereo': True})
     for tag, m in molgen.handmade():
         if time.time() - t0 > budget:
             break
